@@ -25,6 +25,8 @@ def main():
         mod = importlib.import_module('corr.' + a.pid.lower())
         if not a.skip_proof:
             ck.proof_step()
+        else:
+            ck.dev_run = True
         if a.replay:
             data = json.load(open(a.replay))
             mod.replay(ck, data)
